@@ -117,6 +117,7 @@ def run(tier):
 
     out = common.parallel(do, reps, nthreads=8)
     lines = []
+    plines = []
     n2 = 0
     nperm = 0
     descs = collections.Counter()
@@ -129,6 +130,13 @@ def run(tier):
             continue
         index.append((sessions[si][0], p.idx, p.desc, c))
         lines.append({"t": "reset", "case": len(index) - 1, "mode": "sync"})
+        if ref.get("ok"):
+            # the recorded recovery must itself be a sequence of enabled steps of the disk protocol, starting from the level-1 image
+            pl = crashrun.proto_lines(len(index) - 1, [q for q in pts if not q.perm], [])
+            root2 = os.path.join(recs[si]["work"], "n-%d-%d" % (si, p.idx), "lvl1")
+            init = crashrun.proto_init_line(({root2 + k[len(recs[si]["root"]):]: v for k, v in p.snap[0].items()},
+                                            {root2 + d[len(recs[si]["root"]):] for d in p.snap[1]}), root2)
+            plines += [pl[0], init] + pl[1:]
         if not ref.get("ok"):
             # the level-1 verdict belongs to C02; nothing to compare against
             continue
@@ -151,6 +159,18 @@ def run(tier):
         sig = "nested/%s/%s/%s" % (d2, b["clause"], crash.normalize_err(b.get("err", "")))
         o.report(sig, "level-1 image: session %s after '%s' (class %s); kill inside recovery after '%s': %s; map %s; error %s" % (
             sname, desc1, cls, b["desc"], b["clause"], b.get("m"), b.get("err", "")[:200]), {"steps": steps, "idx": idx1, "level2": b["desc"]})
+    pp = os.path.join(common.scratch("cj-C10"), "proto.ndjson")
+    common.write_ndjson(pp, plines)
+    pnok, pbad, pr = judge.judge_trace("DiskProtoTrace.tla", "DiskProtoTrace.cfg", pp, o, "disk protocol conformance of the recorded recoveries", heap="4g")
+    seenp = set()
+    for b in pbad:
+        if b["clause"] in seenp:
+            continue
+        seenp.add(b["clause"])
+        sname, idx1, desc1, cls = index[b["case"]] if 0 <= b.get("case", -1) < len(index) else ("?", -1, "?", "?")
+        o.report("proto/%s" % b["clause"], "recovery of the level-1 image (session %s after '%s', class %s) takes a step the disk protocol does not enable: %s" % (
+            sname, desc1, cls, b.get("ev", "")[:400]), {"steps": dict(sessions).get(sname), "idx": idx1})
+    o.extra["recovery_protocol_steps_conforming"] = pnok
     log("[C10] %d level-2 images (%d from other unlink orders): %s equal to the uninterrupted recovery, %d rejected" % (n2, nperm, nok, len(bad)))
     o.traces = len(reps)
     o.evaluations = n2
